@@ -94,8 +94,9 @@ def int_ctor(rep, lib):
             if rv["k"] != "agg" or rv.get("adt") != NV or rv.get("variant_name") not in ("Positive", "Negative"):
                 continue
             ordinal[rv["variant_name"]] = ordinal.get(rv["variant_name"], 0) + 1
-            if "std::clone::Clone>::clone" in name and lib.fninfo.get(name, {}).get("derived"):
-                r.ok("%s#%s" % (short(name), rv["variant_name"]), "derived Clone", b.where(bb), nontrivial=False)
+            if "std::clone::Clone>::clone" in name and (lib.fninfo.get(name, {}).get("derived")
+                                                         or common.clone_body_ok(lib, name)):
+                r.ok("%s#%s" % (short(name), rv["variant_name"]), "a field-wise Clone", b.where(bb), nontrivial=False)
                 continue
             pr = pr or Prov(b, LOOK)
             want_ty = "u64" if rv["variant_name"] == "Positive" else "i64"
@@ -154,8 +155,9 @@ def float_ctor(rep, lib):
                 key = "%s#Float" % short(name)
                 if name == FROM_F64:
                     r.ok(key, "the normalising constructor", b.where(bb))
-                elif "std::clone::Clone>::clone" in name and lib.fninfo.get(name, {}).get("derived"):
-                    r.ok(key, "derived Clone", b.where(bb), nontrivial=False)
+                elif "std::clone::Clone>::clone" in name and (lib.fninfo.get(name, {}).get("derived")
+                                                               or common.clone_body_ok(lib, name)):
+                    r.ok(key, "a field-wise Clone", b.where(bb), nontrivial=False)
                 else:
                     r.bad(key, "NumberValue::Float is built directly: 1.0 and 1 would be equal but hash differently "
                           "(--unique keeps both) and print differently", b.where(bb))
